@@ -1,12 +1,293 @@
 import Scion.Proofs.Scmp
 import Scion.Gen.Scmp
-/-! C09 (stub, being filled) -/
+/-!
+# C09 — SCMP errors are well-formed, addressed to the source, and bounded in size
+
+Statement (properties.jsonl): every SCMP error message a router generates is addressed to the
+offending packet's source ISD-AS and host, originates from the local ISD-AS and router address, has
+a valid checksum, a type, code and pointer matching the detected problem, and quotes a prefix of the
+offending packet while the whole message stays within 1232 bytes.  No SCMP error is ever generated
+in response to an SCMP error message, and authenticated errors carry a valid authenticator.
+
+Theorems are about `Scion.Scmp.processPacket`, the model of `slowPathPacketProcessor.processPacket`
+(`packSCMP`, `prepareSCMP`, `handleSCMPTraceRouteRequest`), for **every** offending packet, request,
+configuration, link scope and headroom.  Constants and the `ScmpHeaderSize` table are those of
+`Scion.Gen.Scmp`, regenerated from /repo on every run.
+
+Not theorems here (checked on the real bytes by the harness predicate of engine `scmp`, with the
+real decoder / an independent one's-complement sum / the real SPAO verifier): the checksum value and
+the authenticator tag — their inputs (pseudo header = the reply's address header; SPAO over the
+reply header and SCMP message) are fixed by `scmp_addressing` and `auth_iff`.
+-/
 namespace Scion.C09
-open Scion.Scmp
+open Scion.Scmp Scion.PathMeta Scion.Util
+
+/-! ## the model's constants and tables are the code's (T3) -/
+
 theorem gen_consts :
     cmnHdrLen = Scion.Gen.Scmp.CmnHdrLen ∧ maxHdrLen = Scion.Gen.Scmp.MaxHdrLen ∧
     maxSCMPPacketLen = Scion.Gen.Scmp.MaxSCMPPacketLen ∧ e2eAuthHdrLen = Scion.Gen.Scmp.e2eAuthHdrLen ∧
     hopLen = Scion.Gen.Scmp.HopLen ∧ infoLen = Scion.Gen.Scmp.InfoLen ∧ metaLen = Scion.Gen.Scmp.MetaLen ∧
     lineLen = Scion.Gen.Scmp.LineLen ∧ iaBytes = Scion.Gen.Scmp.IABytes ∧ bufSize = Scion.Gen.Scmp.bufSize ∧
-    l4SCMP = Scion.Gen.Scmp.L4SCMP ∧ l4E2E = Scion.Gen.Scmp.End2EndClass := by decide
+    l4SCMP = Scion.Gen.Scmp.L4SCMP ∧ l4E2E = Scion.Gen.Scmp.End2EndClass ∧
+    Scion.PathMeta.maxHops = Scion.Gen.Scmp.MaxHops := by decide
+
+/-- `scmpHeaderSize` is the switch of `slayers.ScmpHeaderSize` as it stands in the source -/
+theorem header_size_table (t : Nat) :
+    scmpHeaderSize t =
+      ((Scion.Gen.Scmp.scmpHeaderSizeCases.lookup t).getD Scion.Gen.Scmp.scmpHeaderSizeDefault) := by
+  unfold scmpHeaderSize Scion.Gen.Scmp.scmpHeaderSizeCases Scion.Gen.Scmp.scmpHeaderSizeDefault
+  simp only [List.lookup]
+  by_cases h5 : t = 5
+  · subst h5; rfl
+  by_cases h6 : t = 6
+  · subst h6; rfl
+  by_cases h130 : t = 130
+  · subst h130; rfl
+  by_cases h131 : t = 131
+  · subst h131; rfl
+  have e5 : (t == 5) = false := by simpa using h5
+  have e6 : (t == 6) = false := by simpa using h6
+  have e130 : (t == 130) = false := by simpa using h130
+  have e131 : (t == 131) = false := by simpa using h131
+  simp [h5, h6, h130, h131, e5, e6, e130, e131]
+
+/-- no SCMP header is larger than `MaxSCMPHeaderSize`, the constant `minHeadroom` is asserted against -/
+theorem header_size_le_max (t : Nat) : scmpHeaderSize t ≤ Scion.Gen.Scmp.MaxSCMPHeaderSize :=
+  (scmpHeaderSize_le t).1
+
+/-- the expressions of `prepareSCMP` that the model transcribes are still the ones in the source -/
+theorem prepare_expressions :
+    Scion.Gen.Scmp.prepare_hdrLen =
+      "|:= slayers.CmnHdrLen + scionL.AddrHdrLen() + scionL.Path.Len() + slayers.ScmpHeaderSize(scmpH.TypeCode.Type())|+= e2eAuthHdrLen" ∧
+    Scion.Gen.Scmp.prepare_maxQuoteLen = "|:= slayers.MaxSCMPPacketLen - hdrLen" ∧
+    Scion.Gen.Scmp.prepare_quoteLen = "|:= len(p.pkt.RawPacket)|= maxQuoteLen" ∧
+    Scion.Gen.Scmp.prepare_headroom = "|:= len(p.pkt.buffer) - cap(p.pkt.RawPacket)" ∧
+    Scion.Gen.Scmp.prepare_conds = ["quoteLen > maxQuoteLen", "hdrLen+p.d.underlayHeadroom > headroom"] := by
+  decide
+
+/-! ## size -/
+
+/-- For every legal path (≤ 3 segments, ≤ 64 hops), every pair of address types, every SCMP type,
+with or without authenticator, the headers leave room: `0 < 1232 − hdrLen`, so the quote slice
+`RawPacket[:quoteLen]` never has a negative length. -/
+theorem hdrLen_lt_max (dstT srcT ni nh t : Nat) (a : Bool) (hi : ni ≤ 3) (hh : nh ≤ 64) :
+    hdrLen dstT srcT ni nh t a < maxSCMPPacketLen ∧ 0 < maxSCMPPacketLen - hdrLen dstT srcT ni nh t a := by
+  have := hdrLen_le dstT srcT ni nh t a hi hh
+  unfold maxSCMPPacketLen; omega
+
+/-- the bound 916 is attained (IPv6 both ways, 3 segments, 64 hops, InternalConnectivityDown,
+authenticated) -/
+example : hdrLen 3 3 3 64 6 true = 916 := by decide
+
+/-- **Every message the slow path emits is at most 1232 bytes long** (errors with their quote, and
+traceroute replies). -/
+theorem scmp_size_le_1232 (cfg : Cfg) (scope : Scope) (headroom : Nat) (o : Offender) (rq : Request)
+    (r : Reply) (h : processPacket cfg scope headroom o rq = .emit r) :
+    r.total ≤ maxSCMPPacketLen := by
+  rcases processPacket_emit cfg scope headroom o rq r h with ⟨t, ht, _, _, hp⟩ | ⟨trIf, p, _, _, hp⟩
+  · obtain ⟨rp0, peering, rp, sz, hrev, hext, hpl, hfin⟩ := prepare_emit _ _ _ _ _ _ _ _ _ _ hp
+    obtain ⟨c1, c2⟩ := reversePath_counts o rp0 peering hrev
+    obtain ⟨d1, d2⟩ := externalStep_counts scope rp0 rp peering hext
+    obtain ⟨_, he, _⟩ := placement_ok _ _ _ _ _ _ _ _ _ _ _ hpl
+    obtain ⟨hle, htot, _⟩ := he rfl
+    have hact := actual_eq_predicted o.srcType cfg.hostType rp.b.numINF rp.b.numHops t
+      (needsAuth cfg o t true) (by omega)
+    have hq := quoteLen_le o.raw.length (hdrLen o.srcType cfg.hostType rp.b.numINF rp.b.numHops t (needsAuth cfg o t true))
+    have hf := finish_emit _ _ _ _ _ _ _ _ _ _ _ hfin
+    have : r.total = sz.total := hf.2.2.2.1
+    omega
+  · obtain ⟨rp0, peering, rp, sz, hrev, hext, hpl, hfin⟩ := prepare_emit _ _ _ _ _ _ _ _ _ _ hp
+    obtain ⟨c1, c2⟩ := reversePath_counts o rp0 peering hrev
+    obtain ⟨d1, d2⟩ := externalStep_counts scope rp0 rp peering hext
+    obtain ⟨_, _, hne⟩ := placement_ok _ _ _ _ _ _ _ _ _ _ _ hpl
+    obtain ⟨htot, _⟩ := hne rfl
+    have hact := actual_eq_predicted o.srcType cfg.hostType rp.b.numINF rp.b.numHops 131
+      (needsAuth cfg o 131 false) (by omega)
+    have hb := hdrLen_le o.srcType cfg.hostType rp.b.numINF rp.b.numHops 131 (needsAuth cfg o 131 false)
+      (by omega) (by omega)
+    have hf := finish_emit _ _ _ _ _ _ _ _ _ _ _ hfin
+    have : r.total = sz.total := hf.2.2.2.1
+    unfold maxSCMPPacketLen; omega
+
+/-- **The quote is a prefix of the offending packet, and it is as long as the bound allows**: the
+message is `min(1232, headers + whole packet)` bytes long. -/
+theorem quote_is_prefix (cfg : Cfg) (scope : Scope) (headroom : Nat) (o : Offender) (rq : Request)
+    (r : Reply) (h : processPacket cfg scope headroom o rq = .emit r) (he : r.isError = true) :
+    r.quote <+: o.raw ∧
+    r.total = (r.total - r.quote.length) + r.quote.length ∧
+    r.total = min maxSCMPPacketLen ((r.total - r.quote.length) + o.raw.length) := by
+  rcases processPacket_emit cfg scope headroom o rq r h with ⟨t, ht, _, _, hp⟩ | ⟨trIf, p, _, _, hp⟩
+  · obtain ⟨rp0, peering, rp, sz, hrev, hext, hpl, hfin⟩ := prepare_emit _ _ _ _ _ _ _ _ _ _ hp
+    obtain ⟨_, hE, _⟩ := placement_ok _ _ _ _ _ _ _ _ _ _ _ hpl
+    obtain ⟨hle, htot, hquo, _⟩ := hE rfl
+    have hact := actual_eq_predicted o.srcType cfg.hostType rp.b.numINF rp.b.numHops t
+      (needsAuth cfg o t true) (by omega)
+    have hf := finish_emit _ _ _ _ _ _ _ _ _ _ _ hfin
+    have h1 : r.total = sz.total := hf.2.2.2.1
+    have h2 : r.quote = sz.quote := hf.2.2.2.2.1
+    have hq := quoteLen_le o.raw.length (hdrLen o.srcType cfg.hostType rp.b.numINF rp.b.numHops t (needsAuth cfg o t true))
+    have hlen : r.quote.length = quoteLen o.raw.length (hdrLen o.srcType cfg.hostType rp.b.numINF rp.b.numHops t (needsAuth cfg o t true)) := by
+      rw [h2, hquo, List.length_take]; omega
+    refine ⟨?_, by omega, ?_⟩
+    · rw [h2, hquo]; exact List.take_prefix _ _
+    · unfold quoteLen at hlen hq; omega
+  · obtain ⟨rp0, peering, rp, sz, hrev, hext, hpl, hfin⟩ := prepare_emit _ _ _ _ _ _ _ _ _ _ hp
+    have hf := finish_emit _ _ _ _ _ _ _ _ _ _ _ hfin
+    have : r.isError = false := hf.2.2.2.2.2.2.2.2.2.2.2.2.2.2.2.2.1
+    rw [this] at he; cases he
+
+/-! ## addressing -/
+
+/-- **Destination = the offending packet's source ISD-AS and host, source = the local ISD-AS and the
+router's own address** — for everything the slow path emits. -/
+theorem scmp_addressing (cfg : Cfg) (scope : Scope) (headroom : Nat) (o : Offender) (rq : Request)
+    (r : Reply) (h : processPacket cfg scope headroom o rq = .emit r) :
+    r.dstIA = o.srcIA ∧ r.dstType = o.srcType ∧ r.rawDst = o.rawSrc ∧
+    r.srcIA = cfg.localIA ∧ r.srcType = cfg.hostType ∧ r.rawSrc = cfg.rawHost := by
+  rcases processPacket_emit cfg scope headroom o rq r h with ⟨t, _, _, _, hp⟩ | ⟨trIf, p, _, _, hp⟩ <;>
+  · obtain ⟨rp0, peering, rp, sz, _, _, _, hfin⟩ := prepare_emit _ _ _ _ _ _ _ _ _ _ hp
+    have hf := finish_emit _ _ _ _ _ _ _ _ _ _ _ hfin
+    obtain ⟨_, _, _, _, _, _, _, a1, a2, a3, a4, a5, a6, _⟩ := hf
+    exact ⟨a1, a3, a2, a4, a6, a5⟩
+
+/-! ## no error in response to an error -/
+
+/-- **Whatever the fast path requests, a packet whose upper layer is an SCMP error message
+(type < 128) never makes the slow path emit anything.** -/
+theorem no_error_on_error (cfg : Cfg) (scope : Scope) (headroom : Nat) (o : Offender) (rq : Request)
+    (t c p : Nat) (hl4 : o.l4 = .scmp t c p) (ht : t < 128) :
+    ∀ r, processPacket cfg scope headroom o rq ≠ .emit r := by
+  intro r h
+  rcases processPacket_emit cfg scope headroom o rq r h with ⟨_, _, _, hinfo, _⟩ | ⟨_, p', _, hreq, _⟩
+  · have := hinfo t c p hl4; omega
+  · rw [hl4] at hreq; injection hreq with h1; omega
+
+/-- an SCMP layer too short to tell its type is not answered either -/
+theorem no_error_on_truncated_scmp (cfg : Cfg) (scope : Scope) (headroom : Nat) (o : Offender)
+    (rq : Request) (hl4 : o.l4 = .scmpShort) : ∀ r, processPacket cfg scope headroom o rq ≠ .emit r := by
+  intro r h
+  unfold processPacket at h
+  have tr : ∀ i, traceroute cfg scope headroom o rq i ≠ .emit r := by
+    intro i; unfold traceroute; rw [hl4]; simp
+  split at h
+  · cases h
+  · split at h
+    · exact tr _ h
+    · split at h
+      · exact tr _ h
+      · dsimp only at h
+        split at h
+        · unfold packSCMP at h; rw [hl4] at h; cases h
+        · cases h
+
+/-! ## type, code, pointer -/
+
+/-- The table "detected problem ↦ (type, code)" is the one of `doc/protocols/scmp.rst`, spelled with
+the code's own constants (regenerated): every problem is reported with an *error* type the slow path
+accepts. -/
+theorem type_code_spec (cd : Bool) :
+    (causeTable .pathExpired cd).1 = Scion.Gen.Scmp.SCMPTypeParameterProblem ∧
+    (causeTable .pathExpired cd).2.1 = Scion.Gen.Scmp.SCMPCodePathExpired ∧
+    (causeTable .badMac cd).2.1 = Scion.Gen.Scmp.SCMPCodeInvalidHopFieldMAC ∧
+    (causeTable .ingressMismatch true).2.1 = Scion.Gen.Scmp.SCMPCodeUnknownHopFieldIngress ∧
+    (causeTable .ingressMismatch false).2.1 = Scion.Gen.Scmp.SCMPCodeUnknownHopFieldEgress ∧
+    (causeTable .unknownEgress true).2.1 = Scion.Gen.Scmp.SCMPCodeUnknownHopFieldEgress ∧
+    (causeTable .unknownEgress false).2.1 = Scion.Gen.Scmp.SCMPCodeUnknownHopFieldIngress ∧
+    (causeTable .badPktLen cd).2.1 = Scion.Gen.Scmp.SCMPCodeInvalidPacketSize ∧
+    (causeTable .invalidSrcIA cd).2.1 = Scion.Gen.Scmp.SCMPCodeInvalidSourceAddress ∧
+    (causeTable .invalidSrcHost cd).2.1 = Scion.Gen.Scmp.SCMPCodeInvalidSourceAddress ∧
+    (causeTable .invalidDstIA cd).2.1 = Scion.Gen.Scmp.SCMPCodeInvalidDestinationAddress ∧
+    (causeTable .invalidDstHost cd).2.1 = Scion.Gen.Scmp.SCMPCodeInvalidDestinationAddress ∧
+    (causeTable .invalidPath cd).2.1 = Scion.Gen.Scmp.SCMPCodeInvalidPath ∧
+    (causeTable .invalidSegChange cd).2.1 = Scion.Gen.Scmp.SCMPCodeInvalidSegmentChange ∧
+    (causeTable .noSvcBackend cd).1 = Scion.Gen.Scmp.SCMPTypeDestinationUnreachable ∧
+    (causeTable .noSvcBackend cd).2.1 = Scion.Gen.Scmp.SCMPCodeNoRoute ∧
+    (causeTable .extIfDown cd).1 = Scion.Gen.Scmp.SCMPTypeExternalInterfaceDown ∧
+    (causeTable .intConnDown cd).1 = Scion.Gen.Scmp.SCMPTypeInternalConnectivityDown := by
+  cases cd <;> decide
+
+theorem cause_is_error (c : Cause) (cd : Bool) :
+    (causeTable c cd).1 < 128 ∧
+    ((causeTable c cd).1 = 1 ∨ (causeTable c cd).1 = 4 ∨ (causeTable c cd).1 = 5 ∨ (causeTable c cd).1 = 6) := by
+  cases c <;> cases cd <;> decide
+
+/-- Where the pointer is fixed it designates the field in question: the hop pointer is the offset
+of the current hop field, which lies inside the SCION header; likewise the info pointer; the two
+address pointers are the offsets of the destination and source ISD-AS. -/
+theorem pointer_spec (ah ni nh ci ch : Nat) (hh : ch < nh) (hi : ci < ni) :
+    pointerOf .hop ah ni ci ch = cmnHdrLen + ah + (metaLen + infoLen * ni + hopLen * ch) ∧
+    pointerOf .hop ah ni ci ch + hopLen ≤ cmnHdrLen + ah + pathLen ni nh ∧
+    pointerOf .info ah ni ci ch = cmnHdrLen + ah + (metaLen + infoLen * ci) ∧
+    pointerOf .info ah ni ci ch + infoLen ≤ cmnHdrLen + ah + metaLen + infoLen * ni ∧
+    pointerOf .cmnHdr ah ni ci ch = Scion.Gen.Scmp.CmnHdrLen ∧
+    pointerOf .srcIA ah ni ci ch = Scion.Gen.Scmp.CmnHdrLen + Scion.Gen.Scmp.IABytes ∧
+    pointerOf .zero ah ni ci ch = 0 := by
+  unfold pointerOf hopPointer infoPointer pathLen cmnHdrLen metaLen infoLen hopLen iaBytes
+    Scion.Gen.Scmp.CmnHdrLen Scion.Gen.Scmp.IABytes
+  refine ⟨by omega, ?_, by omega, ?_, rfl, rfl, rfl⟩
+  · have : 12 * ch + 12 ≤ 12 * nh := by omega
+    omega
+  · have : 8 * ci + 8 ≤ 8 * ni := by omega
+    omega
+
+/-- the emitted type and code are the requested ones; a ParameterProblem carries the requested
+pointer -/
+theorem emitted_type_code (cfg : Cfg) (scope : Scope) (headroom : Nat) (o : Offender) (rq : Request)
+    (r : Reply) (h : processPacket cfg scope headroom o rq = .emit r) (he : r.isError = true) :
+    (r.scmpType : Int) = rq.spType ∧ r.scmpCode = rq.code ∧ r.scmpType < 128 := by
+  rcases processPacket_emit cfg scope headroom o rq r h with ⟨t, ht, hsp, _, hp⟩ | ⟨trIf, p, _, _, hp⟩
+  · obtain ⟨rp0, peering, rp, sz, _, _, _, hfin⟩ := prepare_emit _ _ _ _ _ _ _ _ _ _ hp
+    have hf := finish_emit _ _ _ _ _ _ _ _ _ _ _ hfin
+    have h1 : r.scmpType = t := hf.2.2.2.2.2.2.2.2.2.2.2.2.2.2.2.2.2.2.1
+    have h2 : r.scmpCode = rq.code := hf.2.2.2.2.2.2.2.2.2.2.2.2.2.2.2.2.2.2.2.1
+    refine ⟨by omega, h2, by omega⟩
+  · obtain ⟨rp0, peering, rp, sz, _, _, _, hfin⟩ := prepare_emit _ _ _ _ _ _ _ _ _ _ hp
+    have hf := finish_emit _ _ _ _ _ _ _ _ _ _ _ hfin
+    have : r.isError = false := hf.2.2.2.2.2.2.2.2.2.2.2.2.2.2.2.2.1
+    rw [this] at he; cases he
+
+/-! ## authenticator -/
+
+/-- With SCMP authentication enabled every error carries the authenticator extension (NextHdr = E2E),
+without it none does; the destination address was parsable (needed to derive the key). -/
+theorem auth_iff (cfg : Cfg) (scope : Scope) (headroom : Nat) (o : Offender) (rq : Request)
+    (r : Reply) (h : processPacket cfg scope headroom o rq = .emit r) (he : r.isError = true) :
+    r.auth = cfg.auth ∧ r.nextHdr = (bif cfg.auth then l4E2E else l4SCMP) ∧
+    (cfg.auth = true → addrParsable r.dstType = true) := by
+  rcases processPacket_emit cfg scope headroom o rq r h with ⟨t, ht, hsp, _, hp⟩ | ⟨trIf, p, _, _, hp⟩
+  · obtain ⟨rp0, peering, rp, sz, _, _, _, hfin⟩ := prepare_emit _ _ _ _ _ _ _ _ _ _ hp
+    have hf := finish_emit _ _ _ _ _ _ _ _ _ _ _ hfin
+    have hna : needsAuth cfg o t true = cfg.auth := by unfold needsAuth; simp
+    have h1 : r.auth = needsAuth cfg o t true := hf.2.2.2.2.2.2.2.2.2.2.2.2.2.2.2.2.2.1
+    have h2 := hf.2.2.2.2.2.2.2.2.2.2.2.2.2.2.2.2.2.2.2.2.2.1
+    have h3 := hf.2.2.2.2.2.2.2.2.2.2.2.2.2.2.2.2.2.2.2.2.2.2
+    have h4 : r.dstType = o.srcType := hf.2.2.2.2.2.2.2.2.2.1
+    rw [hna] at h1 h2 h3
+    exact ⟨h1, h2, fun ha => h4 ▸ h3 ha⟩
+  · obtain ⟨rp0, peering, rp, sz, _, _, _, hfin⟩ := prepare_emit _ _ _ _ _ _ _ _ _ _ hp
+    have hf := finish_emit _ _ _ _ _ _ _ _ _ _ _ hfin
+    have : r.isError = false := hf.2.2.2.2.2.2.2.2.2.2.2.2.2.2.2.2.1
+    rw [this] at he; cases he
+
+/-! ## non-vacuity: a concrete bad-MAC report on an external link -/
+
+def exOffender : Offender :=
+  { raw := List.replicate 2000 7, pathType := 1, flowID := 5, tc := 0, srcIA := 2, srcType := 0,
+    rawSrc := [10, 0, 0, 7], pmWord := 1 * 2^24 + 2 * 2^12 + 2 * 2^6,
+    infos := [⟨true, false, 273, 1000⟩, ⟨false, false, 546, 1000⟩],
+    hops := [List.replicate 12 1, List.replicate 12 2, List.replicate 12 3, List.replicate 12 4],
+    l4 := .other, trID := 0, trSeq := 0, reqAuthValid := false }
+
+def exCfg : Cfg := ⟨1, 0, [198, 51, 100, 1], true, 0⟩
+
+example :
+    (match processPacket exCfg .ext 512 exOffender ⟨4, 51, 80, 1, 0⟩ with
+     | .emit r => (r.total, r.quote.length, r.hdrLenField, r.dstIA, r.srcIA, r.auth, r.pm.currHF, r.front)
+     | _ => (0, 0, 0, 0, 0, false, 0, false)) = (1232, 1088, 26, 2, 1, true, 3, true) := by decide
+
+example :
+    (match processPacket exCfg .ext 512 { exOffender with l4 := .scmp 4 51 100 } ⟨4, 51, 80, 1, 0⟩ with
+     | .drop _ => true | _ => false) = true := by decide
+
 end Scion.C09
